@@ -63,6 +63,9 @@ func generate(prop, tier string, seed uint64, run int) *Scenario {
 	case "C08":
 		return genMix(prop, seed, run, mixOpts{lagfree: 0.3, apiChurn: 0.15, spellings: true, shapes: []int{1, 1, 1, 2, 3, 4, 0}, maxOps: 30, watchFiles: 0.4, worldTasks: 2})
 	case "C04":
+		if tier == "thorough" && run < enumTotal() {
+			return genAPIEnum(prop, seed, run)
+		}
 		if pick < 80 {
 			return genAPI(prop, seed, run, tier)
 		}
